@@ -76,6 +76,7 @@ func runC15(c *Ctx) error {
 func r(m dsl.Matcher) {
 	m.Match("probe($x)").Report("$x")
 	m.Match("sugg($x)").Report("M").Suggest("$x")
+	m.MatchComment("LONG (?P<body>[a-zA-Z]+)").Report("$body").Suggest("$body")
 }`))
 	if err != nil {
 		return fmt.Errorf("load: %v", err)
@@ -89,6 +90,9 @@ func r(m dsl.Matcher) {
 	for n := 2; n <= M; n++ {
 		lit := `"` + string(c15Text(n-2)) + `"`
 		fmt.Fprintf(&sb, "\tprobe(%s)\n\tsugg(%s)\n", lit, lit)
+	}
+	for n := 2; n <= M; n++ {
+		fmt.Fprintf(&sb, "\t// LONG %s\n", string(c15Text(n)))
 	}
 	sb.WriteString("}\n")
 	t, err := hx.ParseTarget("c15.go", sb.String())
@@ -119,10 +123,24 @@ func r(m dsl.Matcher) {
 			res.Dist("e2e:panic")
 			continue
 		}
-		if len(reports) != 2*(M-1) {
-			res.Errorf("e2e: expected %d reports, got %d (cfg=%d)", 2*(M-1), len(reports), cfg)
+		if len(reports) != 3*(M-1) {
+			res.Errorf("e2e: expected %d reports, got %d (cfg=%d)", 3*(M-1), len(reports), cfg)
 			continue
 		}
+		// comment rules are run after the syntax walk: the last M-1 reports are the comment ones
+		for i, r := range reports[2*(M-1):] {
+			n := 2 + i
+			src := c15Text(n)
+			ops = append(ops, fmt.Sprintf("interp 1 %s %d", hx.Hex(src), cfg), fmt.Sprintf("interp 0 %s %d", hx.Hex(src), cfg))
+			impl = append(impl, "ok "+hx.HexS(r.Message), "ok "+hx.HexS(r.Repl))
+			specOps = append(specOps, fmt.Sprintf("spec15 1 %s %d ok %s", hx.Hex(src), cfg, hx.HexS(r.Message)), fmt.Sprintf("spec15 0 %s %d ok %s", hx.Hex(src), cfg, hx.HexS(r.Repl)))
+			inputs = append(inputs, map[string]interface{}{"TruncateLen": cfg, "len": n, "comment_rule": true, "suggest": false},
+				map[string]interface{}{"TruncateLen": cfg, "len": n, "comment_rule": true, "suggest": true})
+			res.Dist("e2e:comment-report")
+			res.Dist("e2e:comment-suggest")
+			res.Count("e2e", fmt.Sprintf("c%d/%d", n, cfg), true)
+		}
+		reports = reports[:2*(M-1)]
 		for i, r := range reports {
 			n := 2 + i/2
 			src := []byte(`"` + string(c15Text(n-2)) + `"`)
